@@ -16,7 +16,7 @@ ORDINARY = (ValueError, TypeError, IndexError, KeyError, NotImplementedError, Ru
 
 
 # ------------------------------------------------------------------ generation (parent process)
-_WEIGHTS = [("cartesian", 2), ("argcomb", 2), ("field", 2), ("withfield", 2), ("rt", 5), ("ufunc", 3), ("filter", 3), ("num", 3),
+_WEIGHTS = [("cartesian", 2), ("argcomb", 2), ("field", 2), ("withfield", 2), ("withfield_b", 3), ("rt", 5), ("ufunc", 3), ("filter", 3), ("num", 3),
             ("flatten", 5), ("localindex", 5), ("pad", 8), ("fillnone", 10), ("isnone", 8), ("mask", 7), ("singletons", 3), ("firsts", 3),
             ("comb", 3), ("reduce", 6), ("sort", 4), ("concatperm", 3), ("concat0", 2), ("concat2", 5), ("concat1", 3), ("zip", 3), ("unflatten", 3),
             ("same", 2), ("maysame", 2)]
@@ -34,6 +34,8 @@ def _rand_op(rng):
         return "field", {"key": rng.choice(["x", "y", "a", "b", "0", "1"])}
     if kind == "withfield":
         return "withfield", {"key": rng.choice(["x", "y", "a", "b"]), "new": rng.choice(["z", "x", "a"])}
+    if kind == "withfield_b":
+        return "withfield_b", {"new": rng.choice(["z", "x", "y"]), "vals": [rng.randint(-2, 9) for _ in range(12)]}
     if kind == "rt":
         return rng.choice(["rt_buffers", "rt_pickle", "rt_arrow", "rt_json", "rt_iter"]), {}
     if kind == "ufunc":
@@ -150,6 +152,8 @@ def _call(ak, np, op, a, A):
         return ak.argcombinations(A, a["n"], replacement=bool(a["repl"]), axis=a["axis"])
     if op == "field":
         return A[a["key"]]
+    if op == "withfield_b":
+        return ak.with_field(A, ak.Array(a["vals"]) if len(a["vals"]) else ak.Array(np.array([], dtype=np.int64)), a["new"])
     if op == "withfield":
         return ak.with_field(A, A[a["key"]], a["new"])
     if op == "ufunc":
@@ -219,6 +223,10 @@ def h_chain(case, pick, st, stats):
                 a["_B"] = B
             except (ValueError, TypeError):
                 continue
+        if op == "withfield_b":
+            if '"x":' not in ty and '"a":' not in ty:
+                continue                             # no named records anywhere: a different question
+            a["vals"] = (a["vals"] * 4)[:len(cur_list)]
         if op == "mask":
             a["m"] = (a["m"] * 3)[:len(cur_list)]
         if op == "fillnone":
